@@ -256,10 +256,19 @@ def size(v):
         if k == 'vlist':
             return num(len(v) - 1)
         if k == 'vcomp':
-            # ('vcomp', v0, k, lo, hi, guard, x)
+            # ('vcomp', v0, k, lo, hi, guard, x); x = ('tuple', a, b, ..) for several pushes per step
+            per = num(len(v[6]) - 1) if isinstance(v[6], tuple) and v[6] and v[6][0] == 'tuple' else ONE
             if v[5] == TRUE:
-                return add(size(v[1]), sub(v[4], v[3]))
+                return add(size(v[1]), mul(per, sub(v[4], v[3])))
             return add(size(v[1]), ('count', v[2], v[3], v[4], v[5]))
+        if k == 'vcomp2':
+            # ('vcomp2', v0, i, lo, hi, k2, lo2, hi2, guard, x)
+            per = num(len(v[9]) - 1) if isinstance(v[9], tuple) and v[9] and v[9][0] == 'tuple' else ONE
+            if v[8] == TRUE:
+                inner = mul(per, sub(v[7], v[6]))
+                if not occurs(inner, v[2]):
+                    return add(size(v[1]), mul(inner, sub(v[4], v[3])))
+                return add(size(v[1]), ('sum', v[2], v[3], v[4], inner))
         if k == 'vresize':
             return v[2]
         if k == 'verase':
